@@ -86,6 +86,11 @@ pub struct Run {
     pub mon: Mon,
     pub vi: usize,
     pub steps: usize,
+    /// fault to inject into every transaction executed in full (exhaustive) mode: (site, n-th call)
+    pub fault: Option<(&'static str, u64)>,
+    /// cumulative premium fraction at which each trader's position was last charged funding
+    /// (harness-side ledger: successful Open / Close / Withdraw by the trader, full liquidation)
+    pub charged_at: BTreeMap<&'static str, Integer>,
 }
 
 pub fn deploy_or_drop(cfg: Cfg) -> World {
@@ -100,7 +105,7 @@ pub fn deploy_or_drop(cfg: Cfg) -> World {
 
 impl Run {
     pub fn new(cfg: Cfg, mon: Mon) -> Run {
-        Run { w: deploy_or_drop(cfg), mon, vi: 0, steps: 0 }
+        Run { w: deploy_or_drop(cfg), mon, vi: 0, steps: 0, fault: None, charged_at: BTreeMap::new() }
     }
     pub fn snap(&self) -> Snap {
         let w = &self.w;
@@ -137,13 +142,41 @@ impl Run {
         self.steps += 1;
         let pre = self.snap();
         let obs = crate::oracle::pre_obs(self, &op, &pre);
+        let armed = match self.fault {
+            Some((site, n)) if symrt::is_full() => {
+                arm_fault(site, n);
+                true
+            }
+            _ => false,
+        };
         let tx = self.exec(&op);
+        let fault_hit = if armed { disarm_fault() } else { false };
         let post = self.snap();
+        if fault_hit {
+            prove_d(
+                "C08/sub-message-failure-fails-the-whole-transaction",
+                Cond::from_bool(!tx.ok),
+                format!("{} fault at {:?}", op.name(), self.fault.unwrap()),
+            );
+        }
+        if armed {
+            symrt::log_event(format!("fault {:?} hit={}", self.fault.unwrap(), fault_hit));
+        }
         self.w.observe();
         let what = format!("{}:{}", op.name(), if tx.ok { "ok" } else { "failed" });
         let rec = StepRec { op, pre, post, tx, what, obs };
         self.monitors(&rec);
         crate::oracle::step_oracle(self, &rec);
+        // funding ledger: which cumulative fraction the sender's position is settled up to
+        if rec.tx.ok {
+            let who = rec.op.sender();
+            match &rec.op {
+                Op::Open { .. } | Op::Close { .. } | Op::Withdraw { .. } => {
+                    self.charged_at.insert(who, rec.post.cum[self.vi]);
+                }
+                _ => {}
+            }
+        }
         rec
     }
 
